@@ -118,14 +118,18 @@ def run(ctx):
         for h, body in natural_loops(f).items():
             for b in body:
                 for s in b.insts:
-                    if s.op != 'store':
+                    if s.op == 'call' and (s.callee or '').startswith('@llvm.memcpy'):
+                        sdst = s.ops[0]                 # a row copied with memcpy is a selection as well
+                    elif s.op == 'store':
+                        sdst = s.ops[1]
+                    else:
                         continue
-                    root, steps = access_path(P, f, s.ops[1])
+                    root, steps = access_path(P, f, sdst)
                     rd = f.defs.get(root) if isinstance(root, str) else None
                     if rd is not None and rd.op in ('phi', 'select'):
                         # filled through a walking pointer (`*cur++ = x`): the object the pointer walks
                         from ..poly import PolyCtx as _PC19c
-                        pr_ = _PC19c(P, f, C).ptr(s.ops[1])[0]
+                        pr_ = _PC19c(P, f, C).ptr(sdst)[0]
                         cands_ = [x_ for x_ in f.insts() if x_.op == 'call' and x_.callee == '@malloc' and x_.res and C.val(x_.res) == pr_]
                         rd = cands_[0] if cands_ else rd
                     if rd is None or rd.op != 'call' or rd.callee != '@malloc':
